@@ -229,7 +229,7 @@ theorem coh_selA : ∀ d, Coh W.ctx d (Sb1 W.selA) "Query"
     refine ⟨⟨?_, ?_⟩, ?_⟩
     · intro t t' ht ht' _
       rcases flat_selA (pu_sb1.1 ht) with rfl | rfl <;> rcases flat_selA (pu_sb1.1 ht') with rfl | rfl <;>
-        exact ⟨rfl, rfl, rfl⟩
+        exact ⟨rfl, rfl⟩
     · intro t fd ht _ _ hsub
       rcases flat_selA (pu_sb1.1 ht) with rfl | rfl <;> cases hsub
     · intro t fd ht hfd
@@ -250,10 +250,10 @@ theorem coh_selA : ∀ d, Coh W.ctx d (Sb1 W.selA) "Query"
         refine ⟨⟨?_, ?_⟩, ?_⟩
         · intro t1 t2 h1 h2 hk
           rcases sub_A h1 with rfl | rfl <;> rcases sub_A h2 with rfl | rfl
-          · exact ⟨rfl, rfl, rfl⟩
+          · exact ⟨rfl, rfl⟩
           · simp [tX, tY] at hk
           · simp [tX, tY] at hk
-          · exact ⟨rfl, rfl, rfl⟩
+          · exact ⟨rfl, rfl⟩
         · intro t1 fd1 h1 _ hfd1 _
           rcases sub_A h1 with rfl | rfl
           · have : W.ctx.S.field? "A" "x" = some { name := "x", ty := .named "Int" {} } := rfl
